@@ -1,7 +1,7 @@
 (* C19 — the placement with UNSPECIFIED tie order in the two sorts of the second loop (ModelND.v): every tie order is
    safe.  The proof re-uses the loop invariant of Proofs.v; of the sorts it needs only that they return positions of the
    array they were given, as many as the array has elements. *)
-From Coq Require Import ZArith List Bool Lia ZifyBool Arith Sorting.Permutation.
+From Coq Require Import ZArith List Bool Lia ZifyBool Arith Sorting.Permutation Sorted.
 Require Import QV.C19.Model QV.C19.Spec QV.C19.ProofsList QV.C19.Proofs QV.C19.ModelND.
 Import ListNotations.
 Open Scope Z_scope.
@@ -225,4 +225,67 @@ Proof.
   - vm_compute. discriminate.
   - vm_compute. reflexivity.
   - vm_compute. reflexivity.
+Qed.
+
+(* ---- round 5: the hypothesis `oracle_ok` of the tie-order theorems is inhabited, by the stable sort and by a sort that
+   breaks every tie the other way round ---- *)
+Lemma map_snd_enumerate_from' {A} k (l : list A) : map snd (enumerate_from k l) = seq k (length l).
+Proof. revert k; induction l as [|x l IH]; intros k; cbn; [reflexivity|]. rewrite IH. reflexivity. Qed.
+
+Lemma nondecreasing_of_sorted l : StronglySorted Z.le l -> nondecreasing l.
+Proof.
+  induction 1 as [|x l Hs IH Hall]; cbn; [exact I|].
+  destruct l as [|y r]; [exact I|]. split; [|exact IH]. inversion Hall; assumption.
+Qed.
+
+Lemma argsort_perm a : Permutation (argsort a) (seq 0 (length a)).
+Proof.
+  unfold argsort. rewrite <- (map_snd_enumerate_from' 0%nat a). apply Permutation_map. apply isort_perm.
+Qed.
+
+Lemma argsort_keys_sorted a : StronglySorted Z.le (map (fun i => nth i a 0) (argsort a)).
+Proof.
+  change (StronglySorted Z.le (take_idx 0 a (argsort a))). rewrite take_idx_argsort. apply sorted_keys. apply isort_sorted.
+Qed.
+
+Lemma argsort_is_argsort a : is_argsort a (argsort a).
+Proof. split; [apply argsort_perm|apply nondecreasing_of_sorted, argsort_keys_sorted]. Qed.
+
+Lemma stable_oracle_ok : oracle_ok (fun _ => argsort).
+Proof. intros k a. apply argsort_is_argsort. Qed.
+
+Lemma map_reflect_seq n : map (fun i => (n - 1 - i)%nat) (seq 0 n) = rev (seq 0 n).
+Proof.
+  apply nth_ext with (d := 0%nat) (d' := 0%nat).
+  - rewrite map_length, rev_length. reflexivity.
+  - intros k Hk. rewrite map_length, seq_length in Hk.
+    rewrite (nth_indep _ 0%nat ((fun i => (n - 1 - i)%nat) 0%nat)) by (rewrite map_length, seq_length; exact Hk).
+    rewrite map_nth. rewrite seq_nth by exact Hk.
+    rewrite rev_nth by (rewrite seq_length; exact Hk). rewrite seq_length. rewrite seq_nth by lia. lia.
+Qed.
+
+Lemma argsort_rev_ties_is_argsort a : is_argsort a (argsort_rev_ties a).
+Proof.
+  unfold argsort_rev_ties. split.
+  - eapply perm_trans.
+    + apply Permutation_map. apply argsort_perm.
+    + rewrite rev_length. rewrite map_reflect_seq. apply Permutation_sym, Permutation_rev.
+  - rewrite map_map.
+    assert (E : map (fun i => nth (length a - 1 - i) a 0) (argsort (rev a)) =
+                map (fun i => nth i (rev a) 0) (argsort (rev a))).
+    { apply map_ext_in. intros i Hi. apply argsort_lt in Hi. rewrite rev_length in Hi.
+      rewrite rev_nth by exact Hi. f_equal. lia. }
+    rewrite E. apply nondecreasing_of_sorted, argsort_keys_sorted.
+Qed.
+
+Lemma rev_ties_oracle_ok : oracle_ok (fun _ => argsort_rev_ties).
+Proof. intros k a. apply argsort_rev_ties_is_argsort. Qed.
+
+Lemma oracle_ok_inhabited :
+  oracle_ok (fun _ => argsort) /\ oracle_ok (fun _ => argsort_rev_ties) /\
+  (* an oracle may also answer differently from call to call *)
+  oracle_ok (fun k => if Nat.even k then argsort else argsort_rev_ties).
+Proof.
+  split; [exact stable_oracle_ok|split; [exact rev_ties_oracle_ok|]].
+  intros k a. destruct (Nat.even k); [apply argsort_is_argsort|apply argsort_rev_ties_is_argsort].
 Qed.
